@@ -25,11 +25,11 @@ pub enum CompileOutcome {
 pub fn compile(mods: &[(Vec<String>, String)], entry: &[String]) -> CompileOutcome {
   let mut heap = Heap::new();
   let mut handles = HashMap::new();
-  for (name, text) in crate::model::front::std_extra_sources() {
+  let user_texts: Vec<&str> = mods.iter().map(|(_, t)| t.as_str()).collect();
+  for (name, text) in crate::model::front::needed_std(&mut heap, &user_texts) {
     let mr = heap.alloc_module_reference_from_string_vec(name);
     handles.insert(mr, text);
   }
-  handles.extend(samlang_parser::builtin_std_raw_sources(&mut heap));
   for (name, text) in mods {
     let mr = heap.alloc_module_reference_from_string_vec(name.clone());
     handles.insert(mr, text.clone());
